@@ -180,7 +180,7 @@ class DictE:
 
 # ------------------------------------------------------------------ frames
 class Frame:
-    __slots__ = ('env', 'func', 'cur_exc', 'site', 'loops', 'depth', 'callnode')
+    __slots__ = ('env', 'func', 'cur_exc', 'site', 'loops', 'depth', 'callnode', 'serial0')
 
     def __init__(self, func, site=None, depth=0):
         self.env: Dict[str, Val] = {}
@@ -190,6 +190,7 @@ class Frame:
         self.loops = 0
         self.depth = depth
         self.callnode = None
+        self.serial0 = 0
 
     def copy(self):
         f = Frame(self.func, self.site, self.depth)
@@ -197,6 +198,7 @@ class Frame:
         f.cur_exc = self.cur_exc
         f.loops = self.loops
         f.callnode = self.callnode
+        f.serial0 = self.serial0
         return f
 
 
